@@ -291,7 +291,28 @@ def run(ctx):
         ctx.touch(f)
         fl = q.calls_named(f, 'filter')
         ok = False
+        seen_pred = False
         for bi, t, e in fl:
             pred, cf, agg = q.closure_pred(b, e[2][1])
+            seen_pred = seen_pred or pred is not None
             ok = pred is not None and pred[0] == 'Gt' and is_const(pred[2], 0)
-        ctx.verdict(ok, rule, rule + ':strict', 'printed strategies omit exactly the actions that are not `> 0.0`', f.where(0), 'filter predicate Gt(p, 0): %s' % ok)
+        # other spellings of the same filter: a strict `> 0.0` test guarding the yielded pair (filter_map / for + if)
+        for g_ in [f] + b.closures_of(f):
+            for bi in sorted(g_.reach):
+                t_ = g_.blocks[bi]['term']
+                if t_['t'] == 'switch':
+                    for labels in (frozenset(['else']), frozenset(['0'])):
+                        c_ = g_.cond_of(bi, labels)
+                        if c_['kind'] in ('Gt', 'Ge', 'Lt', 'Le') and c_.get('b') is not None and is_const(c_['b'], 0) and c_.get('truth') is True:
+                            seen_pred = True
+                            ok = ok or c_['kind'] == 'Gt'
+            for bi, t_, p_ in g_.calls():
+                if short(p_) == 'then' and 'bool' in p_:
+                    c_ = facts.cmp_of(strip_refs(g_.call_expr(t_, bi)[2][0]))
+                    if c_ and c_[2] is not None and is_const(c_[2], 0):
+                        seen_pred = True
+                        ok = ok or c_[0] == 'Gt'
+        if not seen_pred:
+            ctx.anchor_lost(rule, 'Strategy::from: the test that drops zero-probability actions')
+        else:
+          ctx.verdict(ok, rule, rule + ':strict', 'printed strategies omit exactly the actions that are not `> 0.0`', f.where(0), 'filter predicate Gt(p, 0): %s' % ok)
